@@ -97,7 +97,12 @@ def _s_nest(v, full, tags):
     if ck_ == 1:
         fs.add_file('sub/c', size=c_size, digest=c_dig)
     fs.add_file('a', size=2, digest='A')
-    top = [mk('DATA', 'a', 2, MD5=digest_for('MD5', 'A'))]
+    # a sibling whose name has "sub" as a string (not component) prefix, with a file that
+    # has no entry yet and one that is listed in the top Manifest
+    fs.add_file('subx/new', size=1, digest='n')
+    fs.add_file('subx/old', size=1, digest='o')
+    top = [mk('DATA', 'a', 2, MD5=digest_for('MD5', 'A')),
+           mk('DATA', 'subx/old', 1, MD5=digest_for('MD5', 'o'))]
     top += dup_slot(v, 'ep', 'sub/c', tags=('DATA',))
     sub = dup_slot(v, 'ec', 'c', tags=tags)
     l_size, l_dig = v.size('l_size'), v.dig('l_dig')
@@ -125,7 +130,9 @@ def run_upd(c):
     c.fresh = None
     c.post = c.fs
     if out == 'saved':
-        c.fresh = tree.run_verify(w, 'Manifest', '')
+        # fresh verification of the directory that was updated (what lies outside a
+        # sub-directory update is deliberately left alone: C10)
+        c.fresh = tree.run_verify(w, 'Manifest', c.upath)
         if w is not c.fs:
             from vf import realfs
             c.post = realfs.readback(w.root_path)
